@@ -9,7 +9,7 @@ CONSTANTS
   AllowSlow = FALSE
   ParamKinds = {}
   Disabled = {}
-  MaxEvents = 7
+  MaxEvents = 8
   Askers = {"me", "u1"}
   Queries = {"qhit", "qmiss"}
   Hits <- MC_Hits
